@@ -35,6 +35,23 @@ CLAIMED.update({
          "Sampling, not proof; stack overflow judged on an 8 MiB stack; wall-clock expiry is reported as inconclusive, never as a violation. One recorded finding (exponential formatting of nested if-else) is excluded by construction above depth 11.",
          "DESIGN.md §4 C05"),
 })
+CLAIMED.update({
+ "C01": ("exploration",
+         "differential property testing against a reference interpreter: generated well-typed programs (proptest over a choice tape driving a typed program generator), real compilation, execution of the emitted WebAssembly in node 22",
+         "Well-typed multi-module programs are generated goal-directed (classes, enums of all layout-relevant shapes, interface with bounded generics, closures, tuples, patterns, fuel recursion, Vec/Str/Process builtins, opaque run-time ints) and run by the harness's reference interpreter (written from the spec, calibrated on tests/snapshot.txt) and by the real pipeline; printed lines and the way the run ends must agree. Spec-undefined runs (overflow, division by zero) are excluded and counted. The repository's own test program is a fixed case.",
+         "Trusts the reference interpreter (harness's reading of spec.md), node 22/V8 as engine. Shapes of recorded findings are excluded from generation by feature flags (counted in known_findings.json) and each is re-observed by a probe on every run.",
+         "DESIGN.md §4 C01"),
+ "C03": ("exploration",
+         "property testing with a typed program generator; validity predicates on every stage output: compile without panic, wasmparser validation, V8 instantiation, TypeScript syntax check, permitted run endings",
+         "Every generated program is accepted by the checker by construction; compile_sources must not panic, the module must validate (wasmparser with GC features) and instantiate in V8, the TypeScript must strip and parse, and both runs may only end in return, Process.panic, a Vec bounds panic confirmed by the reference run, stack exhaustion or an arithmetic trap. The repository's test program is a fixed case.",
+         "wasmparser 0.252 and V8 12.4 trusted as validators. Recorded findings are tolerated by exact signature (panic site / validator message class).",
+         "DESIGN.md §4 C03"),
+ "C04": ("exploration",
+         "differential property testing of the two backends on generated well-typed programs (TypeScript stripped and run in a fresh V8 context vs. WebAssembly through the emitted loader)",
+         "Same generator as C01 with value-level emphasis; printed lines and end class of the TypeScript and WebAssembly runs must agree; runs the reference interpreter marks as overflow / division by zero are excluded and counted; wall-clock expiry of an execution is inconclusive.",
+         "Recorded backend differences (floor vs trunc division, loose equality on tags, 31-bit Vec ints, string escapes, non-ASCII, INT_MIN constant merging) are excluded by construction and re-observed by probes.",
+         "DESIGN.md §4 C04"),
+})
 NOT_YET = {}
 
 props = [json.loads(l) for l in open(os.path.join(HERE, "properties.jsonl"))]
